@@ -279,6 +279,10 @@ func runC05(c *Ctx) {
 	checkUnlockedFlagSetLast(c, "C05-R3")
 	// a passphrase change leaves the keys of an unlocked manager usable: no live key is wiped through an alias
 	checkNoWipeThroughAlias(c, "C05-R3")
+	// Lock() reaches what the address cache holds: an object with key material is in the cache before it is handed out,
+	// and a lookup never replaces a cached object by a fresh one (C08-R4's rule)
+	checkKeyedAddressRegisteredBeforeHandOut(c, "C05-R2")
+	checkCacheMissLoadsSameAddress(c, "C05-R2")
 	// every place the managers keep address OBJECTS (which carry clear-text keys once unlocked) is visited by lock():
 	// the address cache, but also the per-account "last address" objects, which loadAccountInfo rebuilds from the
 	// private account key and which are not part of the address cache
